@@ -239,4 +239,31 @@ CLAIMS["C09"] = {
     "design_ref": "DESIGN.md §4 C09",
 }
 
+CLAIMS["C01"] = {
+    "technique": "value-provenance, who-may-mutate and decision-table rules over resolved MIR",
+    "text": "Decides necessary conditions taken from the statement's own wording: every key inserted into the environment is "
+            "from_compact(from_utf8_lossy(name)) - lossily decoded, upper-cased (R1.1); the map is mutated only through overwriting APIs "
+            "(insert / extend), never entry / try_insert / remove / clear, so the last value wins at the map level (R1.2); the Request is "
+            "built from the wire id and the BeginRequest body at bytes 8..16, and copies role and flags (R1.3); the Params dispatch rows "
+            "are {own id & empty => done, own id & data => continue with (content_length, padding_length), else untouched} (R1.4); across "
+            "all framing implementations a payload counter is only assigned the header's content_length, itself minus a consumed amount, "
+            "or 0, and a padding counter likewise from padding_length (R1.5). Does NOT decide equality of the decoded map for every record "
+            "cut / read cut / buffer size: the cross-record reassembly arithmetic (parse_buffered, try_fill!) is value-level.",
+    "note": "Name-value decoding itself is C16's subject; case-insensitive lookup is C19's.",
+    "design_ref": "DESIGN.md §4 C01",
+}
+CLAIMS["C02"] = {
+    "technique": "decision-table rows, same-quantity accounting on enumerated MIR paths, reference-provenance check",
+    "text": "Decides necessary structural conditions of exact delivery: the delivering state is entered at exactly one dispatch row (active "
+            "stream, own id, non-empty record) and constructed nowhere else (R2.1); bytes reach the caller's buffer / the parsed region / "
+            "Status.stream only in that state (R2.2); in the delivering arm one value n drives Status.stream += n, raw_start += n, "
+            "payload_rem -= n and (buffered mode) gap_start += n with copy_within of exactly n bytes from raw_start (R2.3: each byte once); "
+            "the empty record of the active stream and any later stream are held back untouched and reported as end (R2.4); a stream "
+            "change demotes and discards, and parse asserts an empty stream buffer before delivering into a caller buffer (R2.5); all "
+            "records of one call deliver through the same advancing caller-buffer cursor (R2.6). Does NOT decide byte-exactness under all "
+            "fill / consume / compress schedules (four-cursor geometry arithmetic).",
+    "note": "cmp_input_streams' loop is covered by the pinned stream_order test; C18 covers the tables around it.",
+    "design_ref": "DESIGN.md §4 C02",
+}
+
 PENDING_REASON = "rules for this property are not built yet (build in progress; DESIGN.md §7 gives the order)"
